@@ -568,7 +568,7 @@ def std_run(mod, tier, seed, focus, deadline, nproc=None, case_timeout=None) -> 
 
 
 def std_replay(mod, failure: dict, timeout=None) -> dict:
-    """re-run the stored input in a killable child; still_fails iff the same signature recurs"""
+    """re-run the stored input in a killable child; still_fails iff a failure with the same signature (or one that extends it) recurs"""
     timeout = timeout or getattr(mod, "CASE_TIMEOUT", 30) * 2
     sig = failure.get("signature", "")
     case = dict(failure["input"])
@@ -582,8 +582,8 @@ def std_replay(mod, failure: dict, timeout=None) -> dict:
             h = getattr(mod, "on_crash", None)
             res = jsonable(h(case)) if h else {"failures": [], "errors": ["worker crashed"]}
         sigs = [f["signature"] for f in res.get("failures", [])]
-        if sig in sigs:
-            f = [f for f in res["failures"] if f["signature"] == sig][0]
+        if any(s_.startswith(sig) for s_ in sigs):  # a listed finding may be stored with a signature prefix
+            f = [f for f in res["failures"] if f["signature"].startswith(sig)][0]
             return {"still_fails": True, "detail": f"{sig}: {f.get('what', '')} | expected={json.dumps(f.get('expected'), default=str)[:200]} actual={json.dumps(f.get('actual'), default=str)[:200]} {str(f.get('detail', ''))[:300]}"}
         return {"still_fails": False, "detail": f"signature {sig} not reproduced; observed signatures={sigs} errors={res.get('errors', [])[:3]}"}
     return {"still_fails": False, "detail": "no result"}
